@@ -1,0 +1,67 @@
+//go:build verif
+
+package pcs
+
+// Contracts for /verif (govc).  No code here.
+
+// package invariant: the OID prefix literal has no spare capacity (so that
+// append(prefix, i) allocates) and the well-known OIDs are as declared.
+//@ invariant cap(sgxTcbComponentOidPrefix) == len(sgxTcbComponentOidPrefix) && len(sgxTcbComponentOidPrefix) == 8
+
+//@ func sgxTcbComponentOid(component) (r)
+//@   ensures[oid] len(r) == 9 && r[8] == component && (forall i :: 0 <= i && i < 8 ==> r[i] == sgxTcbComponentOidPrefix[i])
+//@   fresh r
+
+//@ func asn1U8(ext, field, out) (err)
+//@   requires out != nil
+//@   assigns *out
+//@   ensures[iff] err == nil <==> ext != nil && typeis(ext.Value, "int64") && 0 <= as(ext.Value, "int64") && as(ext.Value, "int64") <= 255
+//@   ensures[value] err == nil ==> *out == uint8(as(ext.Value, "int64"))
+//@   ensures[untouched] err != nil ==> *out == old(*out)
+
+//@ func asn1U16(ext, field, out) (err)
+//@   requires out != nil
+//@   assigns *out
+//@   ensures[iff] err == nil <==> ext != nil && typeis(ext.Value, "int64") && 0 <= as(ext.Value, "int64") && as(ext.Value, "int64") <= 65535
+//@   ensures[value] err == nil ==> *out == uint16(as(ext.Value, "int64"))
+//@   ensures[untouched] err != nil ==> *out == old(*out)
+
+//@ func asn1OctetString(ext, field, size) (r, err)
+//@   ensures[nil] ext == nil ==> err != nil
+//@   ensures[direct] ext != nil && len(ext.Value) == size ==> err == nil && r == ext.Value
+//@   ensures[size] err == nil && size >= 0 ==> len(r) == size
+
+//@ func findMatchingExtension(extns, oid) (r, err)
+//@   ensures[first] err == nil ==> r != nil && (exists k :: 0 <= k && k < len(extns) && seq(extns[k].Id) == seq(oid)
+//@ |       && (forall j :: 0 <= j && j < k ==> !(seq(extns[j].Id) == seq(oid))) && seq(r.Value) == seq(extns[k].Value) && r.Value == extns[k].Value)
+//@   ensures[none] err != nil ==> (forall j :: 0 <= j && j < len(extns) ==> !(seq(extns[j].Id) == seq(oid)))
+//@   loop 0: invariant forall j :: 0 <= j && j <= rangeindex ==> !(seq(extns[j].Id) == seq(oid))
+
+//@ func extractTcbExtension(tcbExtension, tcb) (err)
+//@   requires tcb != nil
+//@   assigns tcb.PCESvn, tcb.CPUSvn, tcb.CPUSvnComponents
+//@   ensures[components] err == nil ==> len(tcb.CPUSvnComponents) == 16 && fresh(tcb.CPUSvnComponents)
+//@   loop 1: unroll 16
+
+//@ func extractAsn1SequenceTcbExtension(ext) (r, err)
+//@   ensures[ok] err == nil ==> r != nil && len(r.CPUSvnComponents) == 16
+
+//@ func extractAsn1OctetStringExtension(name, extension, size) (r, err)
+
+//@ func extractSgxExtensions(extensions) (r, err)
+//@   ensures[ok] err == nil ==> r != nil && len(extensions) >= 4
+
+//@ func PckCertificateExtensions(cert) (r, err)
+//@   records pckext
+//@   requires cert != nil
+//@   ensures[ok] err == nil ==> r != nil && len(cert.Extensions) == 6
+//@   ensures[count] len(cert.Extensions) != 6 ==> err != nil
+
+
+// called by encoding/json with a non-nil receiver
+//@ func (*HexBytes).UnmarshalJSON(hb, s) (err)
+//@   requires hb != nil
+//@   assigns hb.Bytes
+//@ func (*TcbComponentStatus).UnmarshalJSON(st, s) (err)
+//@   requires st != nil
+//@   assigns *st
